@@ -341,8 +341,11 @@ class Response:
         tosend.extend(["%s: %s\r\n" % (k, v) for k, v in self.headers])
 
         header_str = "%s\r\n" % "".join(tosend)
-        util.write(self.sock, util.to_bytestring(header_str, "latin-1"))
+        # from here on the response has begun, whatever interrupts the write
+        # (a signal handler that raises, for one): nobody may take the
+        # connection for unused and write an error page into it
         self.headers_sent = True
+        util.write(self.sock, util.to_bytestring(header_str, "latin-1"))
 
     def write(self, arg):
         self.send_headers()
